@@ -194,7 +194,7 @@ def fresh_digests(pid: str, tier: str, seeds: list[int]) -> dict:
     env["PYTHONHASHSEED"] = "1"
     env["FSIM_NO_REEXEC"] = "1"
     out = subprocess.run([sys.executable, "-m", "fsim.cli", "digest", pid, "--tier", tier, "--seeds",
-                          ",".join(map(str, seeds))], capture_output=True, text=True, env=env, cwd=VERIF, timeout=600)
+                          ",".join(map(str, seeds))], capture_output=True, text=True, env=env, cwd=VERIF, timeout=1500)
     if out.returncode != 0:
         raise RuntimeError("fresh interpreter digest run failed: " + out.stderr[-2000:])
     return {int(k): v for k, v in json.loads(out.stdout.strip().splitlines()[-1]).items()}
@@ -221,7 +221,7 @@ def run_check(pid: str, tier: str, base_seed: int, runs: int | None = None, work
     shards = [s for s in shards if s]
     double_total = getattr(mod, "DOUBLE", {"quick": 64, "thorough": 2000})[tier]
     double_every = max(1, n_runs // max(1, double_total))
-    wall_limit = getattr(mod, "WALL_LIMIT", {"quick": 600, "thorough": 7200})[tier]
+    wall_limit = getattr(mod, "WALL_LIMIT", {"quick": 1500, "thorough": 14400})[tier]
     ctx = multiprocessing.get_context("fork")
     aggs = []
     try:
